@@ -2,57 +2,53 @@ import Mathlib.NumberTheory.LegendreSymbol.JacobiSymbol
 import Mathlib.Data.Nat.ModEq
 import Mathlib.Tactic.Ring
 import Mathlib.Tactic.Linarith
+import Mathlib.Tactic.NormNum.Prime
 import Mathlib.Data.Nat.ChineseRemainder
 import BronVerif.Model.BigNum
 import BronVerif.Lemmas.Jacobi
 import BronVerif.Lemmas.BigNumInv
+import BronVerif.Lemmas.BigNumArith
+import BronVerif.Lemmas.BigNumBytes
+import BronVerif.Lemmas.BigNumGcd
+import BronVerif.Lemmas.BigNumSqrt
+import BronVerif.Lemmas.BigNumMR
 /-!
 # C17 — big-number and modular arithmetic return the mathematically correct value (property theorems)
 
 `Nat`/`Int` are the specification.  The theorems below are about the very definitions of
-`Model/BigNum.lean` that the driver executes: `powMod`, `invMod`, `crt2`, `sqrtMod`/`isQR`, `jacobi`,
-the division conventions and the byte conversions.
+`Model/BigNum.lean` that the driver executes: `powMod`/`powModI`, `invMod`, `crt2`, `isqrt`/`sqrtExact?`,
+`sqrtMod`/`isQR`, `jacobi`/`jacobiChecked`, the mirrored binary gcd `gcdBin`/`lcmBin`, the mirrored
+divisions `tdivFromAbs`/`edivFromAbs`/`ratFloor`/`ratCeil`/`symMod`, the capacity convention `trunc`,
+the byte conversions and the Miller–Rabin test `probablyPrime`.  Proofs of the longer ones live in
+`Lemmas/BigNum*.lean`, `Lemmas/Jacobi.lean`.
 -/
 namespace BronVerif.Props.C17
 open BronVerif.BigNum
 
 /-! ## modular exponentiation -/
 
-theorem powModAux_eq (m : Nat) : ∀ (fuel b e acc : Nat), e < 2 ^ fuel →
-    powModAux m fuel b e (acc % m) = acc * b ^ e % m := by
-  intro fuel
-  induction fuel with
-  | zero =>
-    intro b e acc h
-    have : e = 0 := by simpa using h
-    subst this; simp [powModAux]
-  | succ f ih =>
-    intro b e acc h
-    unfold powModAux
-    by_cases he : e = 0
-    · subst he; simp
-    · simp only [he, if_false]
-      have hlt : e / 2 < 2 ^ f := by
-        rw [Nat.div_lt_iff_lt_mul (by norm_num)]; rw [pow_succ] at h; exact h
-      have hpow : b ^ e = (b * b) ^ (e / 2) * b ^ (e % 2) := by
-        rw [← pow_two, ← pow_mul, ← pow_add, Nat.div_add_mod]
-      by_cases hodd : e % 2 = 1
-      · simp only [hodd, if_true]
-        rw [Nat.mod_mul_mod, ih _ _ _ hlt, hpow, hodd, pow_one]
-        rw [Nat.mul_mod, Nat.pow_mod, Nat.mod_mod, ← Nat.pow_mod, ← Nat.mul_mod]
-        ring_nf
-      · have h0 : e % 2 = 0 := by omega
-        simp only [hodd, if_false]
-        rw [ih _ _ _ hlt, hpow, h0, pow_zero, mul_one]
-        rw [Nat.mul_mod, Nat.pow_mod, Nat.mod_mod, ← Nat.pow_mod, ← Nat.mul_mod]
-
 /-- the model's square-and-multiply is exponentiation modulo `m` (every base, exponent, modulus) -/
-theorem powMod_eq (b e m : Nat) : powMod b e m = b ^ e % m := by
-  unfold powMod
-  rw [powModAux_eq m _ _ _ 1 (Nat.lt_log2_self), one_mul, Nat.pow_mod, Nat.mod_mod, ← Nat.pow_mod]
+theorem powMod_eq (b e m : Nat) : powMod b e m = b ^ e % m :=
+  BronVerif.Lemmas.BigNumArith.powMod_eq b e m
 
 example : powMod 3 200 1000007 = 3 ^ 200 % 1000007 := powMod_eq _ _ _
 example : powMod 3 5 7 = 5 := by decide
+
+/-- the signed-exponent convention of `ModExpI` / `Zn.ExpI` / `znstar ExpI`: a non-negative exponent is the
+ordinary power; for a negative exponent (modulus `> 1`) the result exists exactly for units and is then
+the inverse of `x^|e|` in `[0, m)`. -/
+theorem powModI_spec (x : Nat) (e : Int) (m : Nat) (hm : 1 < m) :
+    (0 ≤ e → powModI x e m = some (x ^ e.toNat % m)) ∧
+    (e < 0 → Nat.Coprime x m → ∃ v, powModI x e m = some v ∧ v < m ∧ v * x ^ e.natAbs % m = 1) ∧
+    (e < 0 → ¬ Nat.Coprime x m → powModI x e m = none) := by
+  refine ⟨?_, ?_, ?_⟩
+  · intro he
+    unfold powModI
+    rw [if_pos he, powMod_eq]
+  · intro he hc; exact (BronVerif.Lemmas.BigNumArith.powModI_neg x e m hm he).1 hc
+  · intro he hc; exact (BronVerif.Lemmas.BigNumArith.powModI_neg x e m hm he).2 hc
+
+example : powModI 3 (-2) 7 = some 4 ∧ 4 * 3 ^ 2 % 7 = 1 ∧ powModI 2 (-1) 6 = none ∧ powModI 2 5 6 = some 2 := by decide
 
 /-! ## division conventions -/
 
@@ -77,6 +73,46 @@ theorem divmod_conventions (a b : Int) (hb : b ≠ 0) :
 
 example : tdivmod (-7) 2 = (-3, -1) ∧ edivmod (-7) 2 = (-4, 1) := by decide
 
+/-- the two derivations the Go code uses (divide the magnitudes, then fix signs — `numct.Int.Div`,
+`numct.Int.EuclideanDiv`) are the truncated and the Euclidean division: so `divmod_conventions` is a
+statement about the definitions the driver executes (`tdivFromAbs` for every divisor, `edivFromAbs` for
+every non-zero divisor; division by zero is refused by the API). -/
+theorem divmod_mirror (a b : Int) :
+    tdivFromAbs a b = tdivmod a b ∧ (b ≠ 0 → edivFromAbs a b = edivmod a b) :=
+  ⟨BronVerif.Lemmas.BigNumArith.tdivFromAbs_eq a b, fun hb => BronVerif.Lemmas.BigNumArith.edivFromAbs_eq a b hb⟩
+
+example : tdivFromAbs (-7) 2 = (-3, -1) ∧ edivFromAbs (-7) 2 = (-4, 1) ∧ edivFromAbs (-7) (-2) = (4, 1) ∧
+    edivFromAbs (-6) 2 = (-3, 0) ∧ tdivFromAbs 7 (-2) = (-3, 1) := by decide
+
+/-- exact sign rules of the exact-multiple and negative-dividend cases that `Int.Mod`-style callers rely
+on: the Euclidean remainder is `0` exactly for multiples, and for a negative non-multiple it is
+`|b| − (|a| mod |b|)` with the quotient moved one step away from zero -/
+theorem ediv_sign_rules (a b : Int) (hb : b ≠ 0) :
+    ((edivFromAbs a b).2 = 0 ↔ b ∣ a) ∧ 0 ≤ (edivFromAbs a b).2 ∧ (edivFromAbs a b).2 < |b| ∧
+    (edivFromAbs a b).1 * b + (edivFromAbs a b).2 = a := by
+  rw [BronVerif.Lemmas.BigNumArith.edivFromAbs_eq a b hb]
+  refine ⟨?_, Int.emod_nonneg a hb, Int.emod_lt_abs a hb, ?_⟩
+  · exact (Int.dvd_iff_emod_eq_zero).symm
+  · dsimp only; rw [mul_comm]; exact Int.mul_ediv_add_emod a b
+
+example : (edivFromAbs (-9) 3).2 = 0 ∧ (edivFromAbs (-10) 3) = (-4, 2) := by decide
+
+/-- `num.Rat.Floor` / `Ceil` (Euclidean quotient of numerator by the positive denominator, plus one for
+the ceiling of a non-integer): `d·⌊a/d⌋ ≤ a < d·(⌊a/d⌋+1)` and `d·(⌈a/d⌉−1) < a ≤ d·⌈a/d⌉` -/
+theorem floor_ceil_conventions (a : Int) (d : Nat) (hd : 0 < d) :
+    ((d : Int) * ratFloor a d ≤ a ∧ a < (d : Int) * (ratFloor a d + 1)) ∧
+    ((d : Int) * (ratCeil a d - 1) < a ∧ a ≤ (d : Int) * ratCeil a d) :=
+  BronVerif.Lemmas.BigNumArith.ratFloor_ceil_spec a d hd
+
+example : ratFloor (-7) 2 = -4 ∧ ratCeil (-7) 2 = -3 ∧ ratFloor 7 2 = 3 ∧ ratCeil 7 2 = 4 ∧ ratCeil 6 2 = 3 := by decide
+
+/-- `Modulus.ModSymmetric`: congruent to `x`, in `[-m/2, m/2)` -/
+theorem symMod_conventions (x : Int) (m : Nat) (hm : 0 < m) :
+    (m : Int) ∣ symMod x m - x ∧ -(m : Int) ≤ 2 * symMod x m ∧ 2 * symMod x m < m :=
+  BronVerif.Lemmas.BigNumArith.symMod_spec x m hm
+
+example : symMod 5 8 = -3 ∧ symMod 4 8 = -4 ∧ symMod 3 8 = 3 ∧ symMod (-1) 7 = -1 := by decide
+
 /-! ## Jacobi symbol -/
 
 /-- the formal witness of the defect of `nt/jacobi_purego.go`: reducing `|x|` instead of `x` gives
@@ -94,6 +130,34 @@ theorem jacobi_binary_eq (x : Int) (y : Nat) (hy : y % 2 = 1) : jacobi x y = jac
 example : jacobi (-1) 3 = jacobiSym (-1) 3 := jacobi_binary_eq _ _ (by decide)
 example : jacobi (-15) 23 = 1 ∧ jacobi 1001 9907 = -1 ∧ jacobi (-12) 55 = 1 ∧ jacobiAbsVariant (-15) 23 = -1 := by decide
 
+/-- the symbol computed by the model is multiplicative in the numerator and in the (odd) denominator -/
+theorem jacobi_mul (x₁ x₂ : Int) (y₁ y₂ : Nat) (h₁ : y₁ % 2 = 1) (h₂ : y₂ % 2 = 1) :
+    jacobi (x₁ * x₂) y₁ = jacobi x₁ y₁ * jacobi x₂ y₁ ∧ jacobi x₁ (y₁ * y₂) = jacobi x₁ y₁ * jacobi x₁ y₂ := by
+  have h12 : (y₁ * y₂) % 2 = 1 := by rw [Nat.mul_mod, h₁, h₂]
+  have : NeZero y₁ := ⟨by omega⟩
+  have : NeZero y₂ := ⟨by omega⟩
+  rw [jacobi_binary_eq _ _ h₁, jacobi_binary_eq _ _ h₁, jacobi_binary_eq _ _ h₁, jacobi_binary_eq _ _ h12,
+    jacobi_binary_eq _ _ h₂]
+  exact ⟨jacobiSym.mul_left x₁ x₂ y₁, jacobiSym.mul_right x₁ y₁ y₂⟩
+
+example : jacobi ((-3) * 5) 23 = jacobi (-3) 23 * jacobi 5 23 ∧ jacobi 7 (15 * 11) = jacobi 7 15 * jacobi 7 11 :=
+  jacobi_mul (-3) 5 23 23 (by decide) (by decide) |>.1 |> fun h => ⟨h, (jacobi_mul 7 1 15 11 (by decide) (by decide)).2⟩
+
+/-- the guard of `nt.Jacobi`: exactly the even denominators are refused; every other call returns the
+Jacobi symbol -/
+theorem jacobi_even_rejected (x : Int) (y : Nat) :
+    (jacobiChecked x y = none ↔ y % 2 = 0) ∧ (y % 2 = 1 → jacobiChecked x y = some (jacobiSym x y)) := by
+  unfold jacobiChecked
+  constructor
+  · by_cases h : y % 2 = 0
+    · simp [h]
+    · simp [h]
+  · intro h
+    have h' : ¬ y % 2 = 0 := by omega
+    rw [if_neg h', jacobi_binary_eq x y h]
+
+example : jacobiChecked 3 10 = none ∧ jacobiChecked (-1) 3 = some (-1) := by decide
+
 /-! ## modular inverse -/
 
 /-- `invMod` (extended Euclid) answers exactly for the units of `ℤ/m` (`m > 1`), and its answer is the
@@ -104,6 +168,16 @@ theorem invMod_iff (a m : Nat) (hm : 1 < m) :
 
 example : invMod 3 7 = some 5 ∧ invMod 4 6 = none := by decide
 
+/-- the inverse in `[0, m)` is unique: whatever the implementation returns as an inverse (`a·x ≡ 1`, `x < m`)
+is the model's value -/
+theorem invMod_unique (a m x y : Nat) (hx : x < m) (hy : y < m) (h1 : a * x % m = 1) (h2 : a * y % m = 1) : x = y :=
+  BronVerif.Lemmas.BigNumArith.invMod_unique a m x y hx hy h1 h2
+
+example : ∀ y, y < 7 → 3 * y % 7 = 1 → invMod 3 7 = some y := by
+  intro y hy h
+  have := invMod_unique 3 7 5 y (by decide) hy (by decide) h
+  subst this; decide
+
 /-! ## Chinese remaindering -/
 
 /-- a solution below `p*q` of the two congruences is unique — this is what makes the driver's check
@@ -113,13 +187,36 @@ theorem crt_unique (p q v w : Nat) (h : Nat.Coprime p q) (hv : v < p * q) (hw : 
     (hp : v % p = w % p) (hq : v % q = w % q) : v = w :=
   Nat.ModEq.eq_of_lt_of_lt ((Nat.modEq_and_modEq_iff_modEq_mul h).mp ⟨hp, hq⟩) hv hw
 
-/-- full statement for Garner's formula as implemented by `crt2` (not proved here; every `crt2` value the
-driver uses is re-validated against both congruences at run time, and `crt_unique` gives uniqueness) -/
-def crt_recombine_statement : Prop :=
-  ∀ a b p q : Nat, 1 < p → Nat.Coprime p q → b < q →
-    ∃ v, crt2 a b p q = some v ∧ v % p = a % p ∧ v % q = b ∧ v < p * q
+example (w : Nat) (hw : w < 35) (h5 : w % 5 = 2) (h7 : w % 7 = 3) : w = 17 :=
+  crt_unique 5 7 w 17 (by decide) hw (by decide) h5 h7
+
+/-- **Garner's formula as implemented by `crt.Params.Recombine` (`crt2`)**: for coprime `p > 1`, `q` and a
+reduced `b < q` it returns the unique `v < p·q` with `v ≡ a (mod p)`, `v ≡ b (mod q)` -/
+theorem crt_recombine (a b p q : Nat) (hp : 1 < p) (h : Nat.Coprime p q) (hb : b < q) :
+    ∃ v, crt2 a b p q = some v ∧ v % p = a % p ∧ v % q = b ∧ v < p * q ∧
+      ∀ w, w < p * q → w % p = a % p → w % q = b → w = v := by
+  obtain ⟨v, h1, h2, h3, h4⟩ := BronVerif.Lemmas.BigNumArith.crt2_spec a b p q hp h hb
+  refine ⟨v, h1, h2, h3, h4, ?_⟩
+  intro w hw hwp hwq
+  exact crt_unique p q w v h hw h4 (hwp.trans h2.symm) (hwq.trans h3.symm)
 
 example : crt2 2 3 5 7 = some 17 ∧ 17 % 5 = 2 ∧ 17 % 7 = 3 := by decide
+example : ∃ v, crt2 12 3 5 7 = some v ∧ v % 5 = 12 % 5 ∧ v % 7 = 3 ∧ v < 35 := by
+  obtain ⟨v, h1, h2, h3, h4, _⟩ := crt_recombine 12 3 5 7 (by decide) (by decide) (by decide)
+  exact ⟨v, h1, h2, h3, h4⟩
+
+/-- it agrees with Mathlib's `Nat.chineseRemainder` -/
+theorem crt_eq_chineseRemainder (a b p q : Nat) (hp : 1 < p) (h : Nat.Coprime p q) (hb : b < q) :
+    crt2 a b p q = some (Nat.chineseRemainder h a b : Nat) := by
+  obtain ⟨v, h1, _, _, _, huniq⟩ := crt_recombine a b p q hp h hb
+  have hq : 0 < q := by omega
+  have hlt : (Nat.chineseRemainder h a b : Nat) < p * q :=
+    Nat.chineseRemainder_lt_mul h a b (by omega) (by omega)
+  have hc := (Nat.chineseRemainder h a b).2
+  rw [h1, huniq _ hlt hc.1 (by rw [hc.2, Nat.mod_eq_of_lt hb])]
+
+example : crt2 2 3 5 7 = some (Nat.chineseRemainder (by decide : Nat.Coprime 5 7) 2 3 : Nat) :=
+  crt_eq_chineseRemainder 2 3 5 7 (by decide) _ (by decide)
 
 /-! ## square roots -/
 
@@ -141,19 +238,169 @@ theorem sqrtExact_sq (n r : Nat) (h : sqrtExact? n = some r) : r * r = n := by
 
 example : sqrtMod 2 7 = some 4 ∧ sqrtMod 3 7 = none ∧ sqrtMod 5 41 = some 28 := by decide
 
-/-- completeness modulo an odd prime (Euler's criterion for `isQR`, Tonelli–Shanks for `sqrtMod`): kept as
-statements; the driver additionally squares every root returned by the implementation -/
-def sqrtMod_prime_iff_statement : Prop :=
-  ∀ a p : Nat, p.Prime → p ≠ 2 → ((sqrtMod a p).isSome ↔ ∃ r, r * r % p = a % p)
-def isQR_iff_statement : Prop :=
-  ∀ a p : Nat, p.Prime → p ≠ 2 → (isQR a p = true ↔ ∃ r, r * r % p = a % p)
+/-- the Newton iteration of the model is the integer square root: `r² ≤ n < (r+1)²` -/
+theorem isqrt_spec (n : Nat) : isqrt n * isqrt n ≤ n ∧ n < (isqrt n + 1) * (isqrt n + 1) :=
+  BronVerif.Lemmas.BigNumSqrt.isqrt_spec n
+
+example : isqrt 99 = 9 ∧ isqrt 100 = 10 ∧ isqrt (2 ^ 64 - 1) = 2 ^ 32 - 1 := by decide
+
+/-- `Nat.Sqrt` / `Int.Sqrt` of the API answer only for perfect squares: the model answers for exactly those -/
+theorem sqrtExact_iff (n : Nat) : (sqrtExact? n).isSome ↔ ∃ r, r * r = n :=
+  BronVerif.Lemmas.BigNumSqrt.sqrtExact_iff n
+
+example : sqrtExact? 144 = some 12 ∧ sqrtExact? 145 = none := by decide
+
+/-- **Euler's criterion as executed by the model**: modulo an odd prime, `isQR` holds exactly for the
+quadratic residues (zero included) -/
+theorem isQR_iff (a p : Nat) (hp : p.Prime) (h2 : p ≠ 2) : isQR a p = true ↔ ∃ r, r * r % p = a % p := by
+  have := Fact.mk hp
+  rw [BronVerif.Lemmas.BigNumSqrt.isQR_iff_isSquare a h2, BronVerif.Lemmas.BigNumSqrt.exists_root_iff]
+
+/-- in terms of the Legendre symbol: `isQR a p` iff `(a | p) ≠ −1` -/
+theorem isQR_iff_legendre (a p : Nat) [Fact p.Prime] (h2 : p ≠ 2) : isQR a p = true ↔ legendreSym p a ≠ -1 := by
+  rw [BronVerif.Lemmas.BigNumSqrt.isQR_iff_isSquare a h2, Ne, legendreSym.eq_neg_one_iff, not_not, Int.cast_natCast]
+
+example : isQR 2 7 = true ∧ isQR 3 7 = false ∧ isQR 14 7 = true := by decide
+example : True := by
+  have : Fact (Nat.Prime 7) := ⟨by norm_num⟩
+  have h : isQR 2 7 = true ↔ legendreSym 7 (2 : ℕ) ≠ -1 := isQR_iff_legendre 2 7 (by decide)
+  have _h2 : legendreSym 7 (2 : ℕ) ≠ -1 := h.mp (by decide)
+  trivial
+example : ∃ r, r * r % 7 = 2 % 7 := (isQR_iff 2 7 (by norm_num) (by decide)).mp (by decide)
+
+/-- **completeness of the modular square root modulo an odd prime** (the `p ≡ 3 (mod 4)` exponentiation and
+Tonelli–Shanks with a searched non-residue, as the model implements them): a root is returned exactly
+for the quadratic residues -/
+theorem sqrtMod_prime_iff (a p : Nat) (hp : p.Prime) (h2 : p ≠ 2) :
+    (sqrtMod a p).isSome ↔ ∃ r, r * r % p = a % p := by
+  have := Fact.mk hp
+  constructor
+  · intro h
+    obtain ⟨r, hr⟩ := Option.isSome_iff_exists.mp h
+    exact ⟨r, sqrtMod_sq a p r hr⟩
+  · intro h
+    have hsq : IsSquare ((a % p : ℕ) : ZMod p) := by
+      rw [ZMod.natCast_mod]; exact (BronVerif.Lemmas.BigNumSqrt.exists_root_iff a).mp h
+    have hc := BronVerif.Lemmas.BigNumSqrt.sqrtCandidate_sq (a % p) h2 hsq
+    have hroot : sqrtCandidate (a % p) p * sqrtCandidate (a % p) p % p = a % p := by
+      have e : ((sqrtCandidate (a % p) p * sqrtCandidate (a % p) p : ℕ) : ZMod p) = ((a % p : ℕ) : ZMod p) := by
+        rw [Nat.cast_mul, ← pow_two]; exact hc
+      rw [ZMod.natCast_eq_natCast_iff'] at e
+      rw [e, Nat.mod_mod]
+    unfold sqrtMod
+    dsimp only
+    rw [if_pos hroot]; rfl
+
+/-- and the root returned for a residue squares back (both directions together: what `ModSqrt` promises
+modulo an odd prime) -/
+theorem sqrtMod_prime_residue (a p : Nat) (hp : p.Prime) (h2 : p ≠ 2) (h : ∃ r, r * r % p = a % p) :
+    ∃ r, sqrtMod a p = some r ∧ r * r % p = a % p := by
+  obtain ⟨r, hr⟩ := Option.isSome_iff_exists.mp ((sqrtMod_prime_iff a p hp h2).mpr h)
+  exact ⟨r, hr, sqrtMod_sq a p r hr⟩
+
+example : (sqrtMod 5 41).isSome := (sqrtMod_prime_iff 5 41 (by norm_num) (by decide)).mpr ⟨28, by decide⟩
+example : sqrtMod 5 41 = some 28 ∧ sqrtMod 2 17 = some 6 ∧ sqrtMod 3 17 = none ∧ sqrtMod 0 17 = some 0 := by decide
 
 /-! ## byte conversions -/
 
-def bytes_roundtrip_statement : Prop :=
-  ∀ n len : Nat, bytesToNat (natToBytes n len) = n % 256 ^ len
+/-- big-endian conversions (the byte order of every `Bytes`/`SetBytes`/`FillBytes` of `numct`/`num`; the API has
+no little-endian conversion): decoding the `len`-byte encoding gives `n mod 256^len`, hence `n` itself when
+it fits; the encoding has exactly `len` bytes, each below 256; and encoding is the inverse of decoding, so
+the `len`-byte encoding is canonical -/
+theorem bytes_roundtrip (n len : Nat) :
+    bytesToNat (natToBytes n len) = n % 256 ^ len ∧ (n < 256 ^ len → bytesToNat (natToBytes n len) = n) ∧
+    (natToBytes n len).length = len ∧ (∀ b ∈ natToBytes n len, b < 256) := by
+  refine ⟨BronVerif.Lemmas.BigNumBytes.bytesToNat_natToBytes n len, ?_,
+    BronVerif.Lemmas.BigNumBytes.natToBytes_length n len, BronVerif.Lemmas.BigNumBytes.natToBytes_lt n len⟩
+  intro h
+  rw [BronVerif.Lemmas.BigNumBytes.bytesToNat_natToBytes, Nat.mod_eq_of_lt h]
+
+theorem bytes_canonical (l : List Nat) (h : ∀ b ∈ l, b < 256) :
+    natToBytes (bytesToNat l) l.length = l ∧ bytesToNat l < 256 ^ l.length :=
+  ⟨BronVerif.Lemmas.BigNumBytes.natToBytes_bytesToNat l h, BronVerif.Lemmas.BigNumBytes.bytesToNat_lt l h⟩
+
+example : natToBytes (bytesToNat [0, 0x12, 0x34]) 3 = [0, 0x12, 0x34] :=
+  (bytes_canonical [0, 0x12, 0x34] (by decide)).1
+
+/-- concatenation: the left part is weighted by `256^(length of the right part)` (leading zero bytes do not
+change the value, trailing ones multiply by 256) -/
+theorem fromBytes_append (a b : List Nat) : bytesToNat (a ++ b) = bytesToNat a * 256 ^ b.length + bytesToNat b :=
+  BronVerif.Lemmas.BigNumBytes.bytesToNat_append a b
 
 example : bytesToNat (natToBytes 0x1234 2) = 0x1234 ∧ natToBytes 0x1234 3 = [0, 0x12, 0x34] ∧
     twosDecode (twosEncode (-2) 1) 1 = -2 := by decide
+example : bytesToNat ([0, 0] ++ [0x12, 0x34]) = 0x1234 ∧ bytesToNat ([0x12] ++ [0x34, 0]) = 0x123400 := by decide
+example : bytesToNat (natToBytes 0x123456 2) = 0x3456 := by decide
+
+/-- two's complement (`Int.TwosComplementBytesBE` / `SetTwosComplementBytesBE`) round-trips on its range -/
+theorem twos_roundtrip (i : Int) (len : Nat) (hlen : 0 < len)
+    (hlo : -(2 ^ (8 * len - 1) : Int) ≤ i) (hhi : i < (2 ^ (8 * len - 1) : Int)) :
+    twosDecode (twosEncode i len) len = i :=
+  BronVerif.Lemmas.BigNumBytes.twos_roundtrip i len hlen hlo hhi
+
+example : twosDecode (twosEncode (-128) 1) 1 = -128 ∧ twosDecode (twosEncode 127 1) 1 = 127 ∧ twosEncode (-1) 2 = 0xffff := by decide
+
+/-! ## gcd, lcm -/
+
+/-- **the binary gcd of `numct/internal/gcd.go`** (mirrored round by round by `gcdBin`, `2·cap` rounds on
+`cap`-bit operands) **is `Nat.gcd`**, for every capacity at least the true lengths — in particular the
+value does not depend on the announced capacity -/
+theorem gcd_eq (cap x y : Nat) (hx : x < 2 ^ cap) (hy : y < 2 ^ cap) : gcdBin cap x y = Nat.gcd x y := by
+  rw [BronVerif.Lemmas.BigNumGcd.gcdBin_eq, Nat.mod_eq_of_lt hx, Nat.mod_eq_of_lt hy]
+
+/-- with a capacity below the true length the operands are first truncated (what the Go code does) -/
+theorem gcd_truncating (cap x y : Nat) : gcdBin cap x y = Nat.gcd (x % 2 ^ cap) (y % 2 ^ cap) :=
+  BronVerif.Lemmas.BigNumGcd.gcdBin_eq cap x y
+
+/-- `numct.LCM` (zero guard, then `a·b / gcd`) is `Nat.lcm` -/
+theorem lcm_eq (cap a b : Nat) (ha : a < 2 ^ cap) (hb : b < 2 ^ cap) : lcmBin cap a b = Nat.lcm a b :=
+  BronVerif.Lemmas.BigNumGcd.lcmBin_eq cap a b ha hb
+
+set_option maxRecDepth 8192 in
+example : gcdBin 7 84 36 = 12 ∧ gcdBin 9 84 36 = 12 ∧ gcdBin 20 84 36 = 12 ∧ gcdBin 8 0 0 = 0 ∧ gcdBin 8 0 5 = 5 ∧
+    gcdBin 4 84 36 = Nat.gcd 4 4 := by decide
+example : gcdBin 64 84 36 = Nat.gcd 84 36 := gcd_eq 64 84 36 (by norm_num) (by norm_num)
+set_option maxRecDepth 8192 in
+example : lcmBin 8 84 36 = 252 ∧ lcmBin 8 0 36 = 0 ∧ lcmBin 8 7 0 = 0 := by decide
+
+/-! ## capacities -/
+
+/-- the announced-capacity convention (`trunc`, applied by `NewNatFromBig`, `Resize`, the `…Cap` methods):
+a value is kept modulo `2^cap`; it is unchanged as soon as `cap` is at least its true length, whatever
+larger capacity is announced -/
+theorem cap_semantics (n : Nat) (cap : Int) :
+    trunc n cap < 2 ^ cap.toNat ∧ trunc n cap ≡ n [MOD 2 ^ cap.toNat] ∧
+    (bitLen n ≤ cap.toNat → trunc n cap = n) ∧ (bitLen n ≤ cap.toNat ↔ n < 2 ^ cap.toNat) := by
+  refine ⟨BronVerif.Lemmas.BigNumArith.trunc_lt n cap, BronVerif.Lemmas.BigNumArith.trunc_modEq n cap, ?_,
+    BronVerif.Lemmas.BigNumBytes.bitLen_le_iff n cap.toNat⟩
+  intro h
+  exact BronVerif.Lemmas.BigNumArith.trunc_eq_self n cap ((BronVerif.Lemmas.BigNumBytes.bitLen_le_iff n cap.toNat).mp h)
+
+/-- the default result capacities never truncate: `max(cx, cy) + 1` bits hold a sum, `cx + cy` bits a product -/
+theorem cap_default_exact (x y cx cy : Nat) (hx : x < 2 ^ cx) (hy : y < 2 ^ cy) :
+    trunc (x + y) (Int.ofNat (max cx cy + 1)) = x + y ∧ trunc (x * y) (Int.ofNat (cx + cy)) = x * y :=
+  ⟨BronVerif.Lemmas.BigNumArith.trunc_eq_self _ _ (BronVerif.Lemmas.BigNumArith.add_lt_cap x y cx cy hx hy),
+   BronVerif.Lemmas.BigNumArith.trunc_eq_self _ _ (BronVerif.Lemmas.BigNumArith.mul_lt_cap x y cx cy hx hy)⟩
+
+example : trunc 0x1ff 8 = 0xff ∧ trunc 0x1ff 9 = 0x1ff ∧ trunc 0x1ff 64 = 0x1ff ∧ trunc 5 (-1) = 0 ∧ bitLen 0x1ff = 9 := by decide
+example : trunc (255 + 255) (Int.ofNat (max 8 8 + 1)) = 510 := (cap_default_exact 255 255 8 8 (by decide) (by decide)).1
+
+/-! ## Miller–Rabin -/
+
+/-- **the strong-probable-prime test of the model never rejects a prime**: for a prime `p` with
+`p − 1 = 2^s·d` every base passes (bases that are multiples of `p` pass by convention).  The converse
+(what passes 40 bases is prime) is not a theorem — primality of generated primes stays a named partial. -/
+theorem millerRabin_prime_passes (p s d a : Nat) (hp : p.Prime) (hsd : p - 1 = 2 ^ s * d) :
+    mrWitnessOk p s d a = true := by
+  have := Fact.mk hp
+  exact BronVerif.Lemmas.BigNumMR.mrWitnessOk_prime s d a hsd
+
+/-- so the driver's 40-base test accepts every prime -/
+theorem probablyPrime_of_prime (p : Nat) (hp : p.Prime) : probablyPrime p = true := by
+  have := Fact.mk hp
+  exact BronVerif.Lemmas.BigNumMR.probablyPrime_of_prime
+
+example : mrWitnessOk 13 2 3 2 = true := millerRabin_prime_passes 13 2 3 2 (by norm_num) (by decide)
+example : probablyPrime 1000003 = true ∧ probablyPrime 561 = false ∧ probablyPrime 3215031751 = false := by decide
 
 end BronVerif.Props.C17
